@@ -111,7 +111,7 @@ CLAIMED = {
     "C18": dict(
         level="proof",
         technique="Lean 4 theorems about a byte-level model of the literal parser's slicing / looping combinators (for every string and every well-behaved argument parser) + kernel-decided closure of the regenerated inventory of potentially aborting expressions + differential run of the combinator model against the real combinators through a guarded hook + fuzzing of all 50 derives under catch_unwind with a watchdog (partial: most inventory sites outside the literal parser are covered by the fuzzing only)",
-        text="Lean: char / check_char / any_char / str / one_of never panic and return a proper suffix; for every well-behaved argument parser and every input string take_while0 terminates within length+1 steps, does not panic, and `&input[..(input.len() - cur.len())]` is exactly the consumed prefix (a char boundary), likewise take_while1 and take_until1 (whose `until` only needs to be panic-free) — by induction over fuel with the suffix invariant and `byteLen (pre ++ cur) - byteLen cur = byteLen pre`; a character count used as a byte offset panics on U+3000 (example). no_unaccounted_site: the inventory of index / slice expressions, unwrap / expect, panic!-family macros, `-` `/` `%`, Punctuated::push_*, Ident::new, format_ident!, parse_quote! regenerated from impl/src on every run (175 sites: 13 proved, 20 deliberate diagnostics, 142 observed) has nothing beyond the accounted-for baseline. Tie: 12 named combinator instances of the real parser (hook) vs the Lean model on 4380 strings each (exhaustive up to length 3 over 1-4 byte characters, random up to 44). Search: 10.7 k expansions under catch_unwind with hang / abort bisection: every generated item of the other properties under its own and 4 random other derives, 16 odd item kinds x 50 derives (unions, empty enums, raw identifiers, discriminant extremes), 700 token-level attribute mutations, 6.6 k format literals (exhaustive up to length 2, random longer, 30-digit numbers, unbalanced braces, 1-4 byte characters); a panic is an internal failure unless it comes from a panic!/assert! site of the inventory with a message",
+        text="Lean: char / check_char / any_char / str / one_of never panic and return a proper suffix; for every well-behaved argument parser and every input string take_while0 terminates within length+1 steps, does not panic, and `&input[..(input.len() - cur.len())]` is exactly the consumed prefix (a char boundary), likewise take_while1 and take_until1 (whose `until` only needs to be panic-free) — by induction over fuel with the suffix invariant and `byteLen (pre ++ cur) - byteLen cur = byteLen pre`; a character count used as a byte offset panics on U+3000 (example). no_unaccounted_site: the inventory of index / slice expressions, unwrap / expect, panic!-family macros, `-` `/` `%`, Punctuated::push_*, Ident::new, format_ident!, parse_quote! regenerated from impl/src on every run (about 175 sites; proved: the 13 of the literal parser and the 11 `data.<vec>[source]` / `[backtrace]` index expressions of error.rs — error_positions_in_bounds / error_all_index_in_bounds: whatever parse_fields selects, explicitly, by name or type, or through the two-field inference, is a position of an enabled field, over the model that C09 ties to the working tree; 20 deliberate diagnostics; the rest observed) has nothing beyond the accounted-for baseline. Tie: 12 named combinator instances of the real parser (hook) vs the Lean model on 4380 strings each (exhaustive up to length 3 over 1-4 byte characters, random up to 44). Search: 10.7 k expansions under catch_unwind with hang / abort bisection: every generated item of the other properties under its own and 4 random other derives, 16 odd item kinds x 50 derives (unions, empty enums, raw identifiers, discriminant extremes), 700 token-level attribute mutations, 6.6 k format literals (exhaustive up to length 2, random longer, 30-digit numbers, unbalanced braces, 1-4 byte characters); a panic is an internal failure unless it comes from a panic!/assert! site of the inventory with a message",
         note="partial: Lean kernel for the combinator model; inventory by translator; fuzzing is a search, not a proof",
         ref="DESIGN.md §4 C18"),
     "C17": dict(
